@@ -54,6 +54,14 @@ CHECKS = {
    text="a real child process built from the current pkg/client/assets performs seeded store sequences under ptrace; for a fixed set of sequences every file-system syscall stop point is enumerated with kill-at-entry, kill-at-exit, torn write + kill, each errno and short write; the directory is then loaded by a fresh process and compared byte-for-byte with the old/new configuration, and the in-memory rollback is checked",
    note="trusted: the ptrace tracer's syscall classification (x86-64), determinism of the child's file-system syscall sequence (verified per sequence by three reference runs); power loss / page-cache durability is not modelled (the property speaks of process crash, kill or write failure)",
    tech=TECH + " (crash-point and syscall-error enumeration on a real process via ptrace)"),
+ "C09": dict(cat="exploration", ref="5 C09",
+   text="lock-level scheduler over pkg/station/lib: every lock operation, liveness probe and resolver lookup is a scheduling point; every schedule with <= 2 preemptions is enumerated for three small scenarios (duplicate ingest, same identifier with acceptable + forbidden covert, ingest vs sweep vs lookup) and seven scenarios (plus overload, shutdown with idle / busy input, reload) are sampled; oracles: one New per lifetime, visibility only after the registration's own admission, no lost regCount update, map bijection, no panic, deadlock from the wait-for graph, dropped == offered - accepted with a non-blocking distributor, bounded shutdown, porcupine linearizability of ingest histories; the data-race clause is covered by an auxiliary -race run in the thorough tier",
+   note="code between two lock operations runs atomically; third-party code is not instrumented; the auxiliary race run is statistical and outside the deterministic core (reported separately in the evidence); one known finding (unsynchronised OnReload)",
+   tech=TECH + " (lock-level cooperative scheduler with emulated RWMutex, bounded-preemption enumeration + seeded search, porcupine; auxiliary race-detector stress)"),
+ "C10": dict(cat="exploration", ref="5 C10",
+   text="admitted registrations over every transport, both families, registrant forms (IPv4, 16-byte v4-mapped, IPv6, absent) and registrar overrides are driven through the real station; the real sendToDetector / clearDetector publish through a real go-redis client over a simulated connection into a RESP stub feeding a Go port of the detector's acceptance rules and session table; every payload must be accepted, describe its registration, request 10 min / 6 h; what the station would still match must be live in the model at every checked instant; Cleanup must empty the table",
+   note="trusted: the < 100-line Go port of src/sessions.rs (the Rust detector cannot be built here); no loss on the detector channel; expired-not-yet-swept registrations are don't-cares; message contents are sampled",
+   tech=TECH + " (real publisher + redis client over simulated transport, executable detector model, simulated clock for lifetimes and restart)"),
  "C12": dict(cat="exploration", ref="5 C12",
    text="generated bidirectional requests (all transports / params / families / library versions, forged response and signature fields, overrides allowed or disabled) x registrar configurations (authenticated or not, parameter override sets, weighted subnet overrides, exclusions, percentages) x subnet files through the real RegProcessor; the forwarded bytes reach 1-2 real station parsers through a channel that duplicates, delays and reorders; three views (client, forwarded, station) must agree; a statistical sub-scenario checks that every non-zero-weight override subnet is used (miss probability < 1e-12)",
    note="trusted: the ~40-line restatement of how the client library applies a RegistrationResponse around the real ClientTransports; the request/configuration space is sampled; the station never verifies the response signature itself (reported, not judged: no sentence of the property licenses an oracle for it)",
